@@ -156,6 +156,8 @@ HAND = [
     "2048 4 4097:f | T0:4096 | O C W",
     "2048 4 4097:f | E0:1 F4096 | O C W",
     "2048 4 4096:f | B1 | O C w",
+    "2048 3 40000:f 500:f | Z0:1000 T0:39000 | O C W",
+    "2048 3 40000:f 500:f | Z0:1000 | O C W",
     "2048 4 4096:f | B0:19 | O C W",
     "2048 4 4096:f | B1:0 | O C W",
     "1100 5 1000:f 100:f 1100:f 50:f | M3 | O C D2 D0 S C D1 X O C W",
@@ -182,12 +184,37 @@ def exhaustive_small(out, stats):
                     stats["exhaustive_small"] += 1
 
 
+def zero_tail_cases(r, stats, n):
+    """files whose described content ends in zeros, truncated inside their last 4 KiB page (and just outside it):
+    a mapping that reaches past EOF into the zero-filled rest of the page must not count as data on disk"""
+    out = []
+    for _ in range(n):
+        pl = r.choice([2048, 3000, 4096])
+        pre = r.choice([0, r.randint(1, 3000)])
+        ln = r.randint(4200, 12000)
+        nz = r.randint(1, min(3000, ln - 1))
+        lastpage = (ln - 1) // 4096 * 4096
+        lo = max(ln - nz, lastpage + 1, 1)
+        if lo > ln - 1:
+            nz = ln - lastpage - 1
+            lo = max(ln - nz, lastpage + 1, 1)
+        cut = r.randint(lo, ln - 1) if lo <= ln - 1 else ln - 1
+        files = ([(pre, False)] if pre else []) + [(ln, False), (r.randint(1, 2000), False)]
+        k = 1 if pre else 0
+        pert = ["Z%d:%d" % (k, nz), "T%d:%d" % (k, cut)]
+        if r.random() < 0.3:
+            pert[1] = "T%d:%d" % (k, max(0, lastpage - r.randint(0, 50)))      # cut before the last page: never mappable
+        out.append(fmt(pl, r.randint(1, 9), files, pert, r.choice([["O", "C", "W"], ["O", "C", "w"]])))
+        stats["zero_tail_truncation"] += 1
+    return out
+
+
 def gen(seed, tier):
     r = random.Random(seed * 7919 + 9)
     stats = {k: 0 for k in ["file_missing", "file_nodir", "file_truncated", "file_extended", "file_unreadable",
                             "file_intact", "byte_flips", "bad_expected", "pat_full", "pat_full_free",
                             "pat_stop_after_k", "pat_close_after_k", "pat_quick", "pat_stop_twice", "pat_random",
-                            "exhaustive_small", "corpus", "hand", "stop_every_k"]}
+                            "exhaustive_small", "corpus", "hand", "stop_every_k", "zero_tail_truncation"]}
     cases = []
     cdir = os.path.join(os.path.dirname(os.path.dirname(os.path.abspath(__file__))), "corpus", "C09")
     for f in sorted(glob.glob(os.path.join(cdir, "*.case"))):
@@ -215,6 +242,7 @@ def gen(seed, tier):
             ds = ["D%d" % i for i in order[:k]]
             end = r.choice([["S", "C", "W"], ["X", "O", "C", "W"], ["s", "C", "w"], ["x"]])
             cases.append(fmt(pl, sd, files, pert, ["O", "C"] + ds + end)); stats["stop_every_k"] += 1
+    cases += zero_tail_cases(r, stats, 60 if tier == "quick" else 600)
     if tier != "quick":
         exhaustive_small(cases, stats)
     return cases, stats
@@ -225,7 +253,7 @@ def gen(seed, tier):
 def parse_snap(s):
     d = {}
     for t in s.split():
-        for key in ("rf", "bl", "mp", "hq", "fo"):
+        for key in ("rf", "bl", "mp", "hq", "fo", "mb", "mu"):
             if t.startswith(key):
                 d[key] = t[len(key):]
                 break
@@ -265,9 +293,12 @@ def oracle(case, full):
                 bad.append(("not-exact", "completed check reports %s, the valid pieces on disk are %s" % (b, ssl)))
         if o[0] in "CQ" and prev is not None and prev.get("k") == "0" and prev.get("c") == "0" and prev.get("o") == "1":
             last_check = o[0]
-        if sn.get("k") == "0" and any(sn.get(k) != "0" for k in ("rf", "bl", "mp", "hq")):
-            bad.append(("leak-after-stop", "after %s (not checking): references/blocking/mapped/queued = %s/%s/%s/%s" % (
-                o, sn.get("rf"), sn.get("bl"), sn.get("mp"), sn.get("hq"))))
+        if sn.get("k") == "0" and any(sn.get(k) != "0" for k in ("rf", "bl", "mp", "hq", "mb", "mu")):
+            bad.append(("leak-after-stop", "after %s (not checking): references/blocking/mapped/queued/accounted blocks/bytes = %s/%s/%s/%s/%s/%s" % (
+                o, sn.get("rf"), sn.get("bl"), sn.get("mp"), sn.get("hq"), sn.get("mb"), sn.get("mu"))))
+        if sn.get("mb") != sn.get("mp"):
+            bad.append(("memory-accounting", "after %s: %s nodes mapped but %s blocks (%s bytes) accounted by the memory manager" % (
+                o, sn.get("mp"), sn.get("mb"), sn.get("mu"))))
         if o[0] in "SsXx":
             was_checking = prev is not None and prev.get("k") == "1"
             if sn.get("k") != "0" or (sn.get("d") != "0" and (was_checking or o[0] in "Xx")):
@@ -278,7 +309,7 @@ def oracle(case, full):
             last_check = None
         prev = sn
     ac = parse_snap(ex.get("atclose", ""))
-    if any(ac.get(k) != "0" for k in ("rf", "bl", "mp", "hq", "fo")):
+    if any(ac.get(k) != "0" for k in ("rf", "bl", "mp", "hq", "fo", "mb", "mu")):
         bad.append(("leak-after-close", "after close: " + ex.get("atclose", "")))
     pre, post = ex.get("pre", "").split(), ex.get("post", "").split()
     created = 0
